@@ -7,6 +7,9 @@ with join and widening over the CFG).  Everything is integer arithmetic, so  x <
 Variables:  ('v', local/param id) | ('f', field name) | 'Z'.
 """
 INF = float('inf')
+# optional hook: (function, call node) -> set of field names of *this the call may write (interprocedural effect summary);
+# None = assume a non-const member call may write every non-const integer field
+CALL_MAY_WRITE = None
 INT_TYPES = {'long', 'int', 'const long', 'const int', 'unsigned long', 'unsigned int', 'short', 'bool', 'const bool',
              'const unsigned long', 'const unsigned int', 'long long', 'const long long'}
 
@@ -237,6 +240,49 @@ def linear(fn, n):
     return None
 
 
+def _diff_definition(fn, v):
+    """(p, q, c) if v is a const local initialised with  p - q + c  (p, q integer variables), else None."""
+    if not (isinstance(v, tuple) and v[0] == 'v'):
+        return None
+    lv = fn.locals[v[1]]
+    if not lv.get('const') or lv['kind'] != 'var':
+        return None
+    cache = getattr(fn, '_diffdefs', None)
+    if cache is None:
+        cache = fn._diffdefs = {}
+    if v[1] in cache:
+        return cache[v[1]]
+    res = None
+    for x in fn.walk():
+        if x['k'] == 'DeclStmt':
+            for d in x.get('decls', []):
+                if d.get('var') == v[1] and 'init' in d:
+                    from .ranges import linform
+                    L = linform(fn, fn.nodes[d['init']]) if False else None
+                    # parse  p - q + c  directly (avoid recursion through linform's const-local inlining)
+                    res = _parse_diff(fn, fn.nodes[d['init']])
+    cache[v[1]] = res
+    return res
+
+
+def _parse_diff(fn, n):
+    n = fn.strip(n)
+    if n is None or n['k'] != 'BinaryOperator':
+        return None
+    if n['op'] in ('+', '-'):
+        l, r = fn.strip(fn.nodes[n['c'][0]]), fn.strip(fn.nodes[n['c'][1]])
+        rl = linear(fn, r)
+        if rl is not None and rl[0] == 'Z':
+            inner = _parse_diff(fn, l)
+            if inner is not None:
+                return (inner[0], inner[1], inner[2] + (rl[1] if n['op'] == '+' else -rl[1]))
+        if n['op'] == '-':
+            a, b = linear(fn, l), linear(fn, r)
+            if a and b and a[0] != 'Z' and b[0] != 'Z':
+                return (a[0], b[0], a[1] - b[1])
+    return None
+
+
 def assume(fn, d, cond, truth):
     """Refine zone d with `cond == truth`.  Returns d (mutated copy semantics are the caller's business)."""
     n = fn.strip(cond)
@@ -260,6 +306,32 @@ def assume(fn, d, cond, truth):
         if not truth:
             op = {'<': '>=', '<=': '>', '>': '<=', '>=': '<', '==': '!=', '!=': '=='}[op]
         (x, cx), (y, cy) = a, b
+        # a const local defined as  p - q + c0  carries the comparison over to (p, q):  (p - q + c0) + cx  op  k
+        for (side, other, flip) in ((a, b, False), (b, a, True)):
+            dd = _diff_definition(fn, side[0])
+            if dd is not None and other[0] == 'Z':
+                p_, q_, c0 = dd
+                # p - q  op'  other_c - side_c - c0
+                k_ = other[1] - side[1] - c0
+                op2 = op if not flip else {'<': '>', '<=': '>=', '>': '<', '>=': '<=', '==': '==', '!=': '!='}[op]
+                if op2 == '<':
+                    d.add(p_, q_, k_ - 1)
+                elif op2 == '<=':
+                    d.add(p_, q_, k_)
+                elif op2 == '>':
+                    d.add(q_, p_, -k_ - 1)
+                elif op2 == '>=':
+                    d.add(q_, p_, -k_)
+                elif op2 == '==':
+                    d.add(p_, q_, k_)
+                    d.add(q_, p_, -k_)
+                elif op2 == '!=':
+                    d.close()
+                    if not d.bot:
+                        if d.get(p_, q_) == k_:
+                            d.add(p_, q_, k_ - 1)
+                        if d.get(q_, p_) == -k_:
+                            d.add(q_, p_, -k_ - 1)
         # x + cx  op  y + cy   <=>   x - y  op  cy - cx
         c = cy - cx
         if op == '<':
@@ -294,6 +366,18 @@ def assume(fn, d, cond, truth):
     return d
 
 
+def const_fields(fn):
+    """Names of the fields that are const-qualified where this function mentions them (a member call cannot change them)."""
+    c = getattr(fn, '_const_fields', None)
+    if c is None:
+        c = set()
+        for x in fn.nodes:
+            if x['k'] == 'MemberExpr' and x.get('mk') == 'field' and x.get('t', '').startswith('const '):
+                c.add(x['member'])
+        fn._const_fields = c
+    return c
+
+
 def written_var(fn, n):
     """(var key, kind, rhs node) if element node n writes an integer variable: kinds '=', '+=', '-=', '++', '--', 'decl', 'other'."""
     k = n['k']
@@ -307,6 +391,36 @@ def written_var(fn, n):
         if v is not None:
             return v, n['op'], None
     return None
+
+
+def killed_vars(fn, n):
+    """Variables (zone keys) that executing element n may change."""
+    out = set()
+    k = n['k']
+    w = written_var(fn, n)
+    if w is not None:
+        out.add(w[0])
+    if k == 'DeclStmt':
+        for dd in n.get('decls', []):
+            if 'var' in dd:
+                out.add(('v', dd['var']))
+    if k in ('CallExpr', 'CXXMemberCallExpr', 'CXXOperatorCallExpr', 'CXXConstructExpr', 'CXXTemporaryObjectExpr'):
+        pm = n.get('pmut')
+        args = fn.call_args(n)
+        off = 1 if (k == 'CXXOperatorCallExpr' and pm is not None and len(pm) == len(args) - 1) else 0
+        for j, a in enumerate(args):
+            v = var_of(fn, a)
+            jj = j - off
+            if v is not None and not (jj < 0 and pm is not None) and (pm is None or jj >= len(pm) or pm[jj] != 'C' or n.get('unresolved')):
+                out.add(v)
+        if k == 'CXXMemberCallExpr' and n.get('org') == 'S' and not n.get('cconst'):
+            o = fn.call_object(n)
+            r = fn.root_of(o) if o is not None else None
+            alias_of_this = r is not None and r[0] == 'local' and fn.locals[r[1]].get('ref')
+            if o is not None and (fn.strip(o)['k'] == 'CXXThisExpr' or alias_of_this):
+                mw = CALL_MAY_WRITE(fn, n) if CALL_MAY_WRITE is not None else None
+                out.add(('fields', frozenset(mw) if mw is not None else None))
+    return out
 
 
 def step(fn, d, n):
@@ -371,8 +485,11 @@ def step(fn, d, n):
             r = fn.root_of(o) if o is not None else None
             alias_of_this = r is not None and r[0] == 'local' and fn.locals[r[1]].get('ref')
             if o is not None and (fn.strip(o)['k'] == 'CXXThisExpr' or alias_of_this):
-                for x in [x for x in d.vars() if isinstance(x, tuple) and x[0] == 'f']:
-                    d.forget(x)
+                cf = const_fields(fn)
+                mw = CALL_MAY_WRITE(fn, n) if CALL_MAY_WRITE is not None else None
+                for x in [x for x in d.vars() if isinstance(x, tuple) and x[0] == 'f' and x[1] not in cf]:
+                    if mw is None or x[1] in mw:
+                        d.forget(x)
         return d
     return d
 
